@@ -70,7 +70,11 @@ def gen(rng, tier):
         for j in jobs:
             j["fails"] = 0
     spec = {"kind": kind, "mode": mode, "base": rng.choice(["pool", "pool", "sync"]) if kind != "pool" else "none",
-            "jobs": jobs, "trigger_at": rng.choice([0, 0.01, 0.05, 0.3, 1.0]), "settle": 60.0}
+            "jobs": jobs, "trigger_at": rng.choice([0, 0.01, 0.05, 0.3, 1.0]), "settle": 60.0,
+            # other idle executors alive at the same time (interpreter-exit must reach all of them),
+            # one of which may be dropped by another thread while the trigger is in progress
+            "bystanders": [rng.choice(["retry", "timeout", "poll", "throttle"]) for _ in range(rng.choice([0, 0, 1, 2, 3]))],
+            "drop_bystander": rng.random() < 0.5}
     spec["sim"] = runner.draw_sim_cfg(rng, est=600)
     spec["sim"]["horizon_s"] = 20000
     return spec
@@ -110,6 +114,9 @@ def run(spec, env):
     from more_executors._impl import event as E
     sim = env.sim
     kind, mode = spec["kind"], spec["mode"]
+    by = []
+    for bk in (spec.get("bystanders", []) if mode == "exithook" else []):
+        by.append(make_executor({"kind": bk, "base": "sync"}, env))
     ex = make_executor(spec, env)
     wr = {"future": [], "callable": [], "arg": [], "result": []}
     futs = []
@@ -197,7 +204,14 @@ def run(spec, env):
     elif mode == "exithook":
         if spec["trigger_at"]:
             env.sleep(spec["trigger_at"])
+        if by and spec.get("drop_bystander"):
+            def dropper():
+                env.await_("exit-begin", 5.0)
+                by.pop(0)
+                gc.collect()
+            env.client(dropper, "client-drop")
         env.rec("trigger", "exithook")
+        env.hit("exit-begin")
         E.GLOBAL_HANDLER.on_exiting()
         if kind == "pool" or spec["base"] == "pool":
             # the stdlib's own exit hook for thread pools
